@@ -82,6 +82,23 @@ Ltac step_cases fin :=
   unf; split_goal;
   (let H := fresh in intro H; injection H as <-); subst; cbn in *; bool_hyps; fin.
 
+(* finishing tactics *)
+Ltac destr_vars :=
+  repeat match goal with
+  | H : context[match ?v with _ => _ end] |- _ => is_var v; destruct v; cbn in *
+  | |- context[match ?v with _ => _ end] => is_var v; destruct v; cbn in *
+  end.
+Ltac nw_fin D nxt :=
+  let D' := fresh "D'" in
+  intros ? ? ?; try lia;
+  match goal with
+  | Hw : (_ <= ?v < _)%nat |- _ =>
+      destruct (Nat.eq_dec v nxt);
+      pose proof (fun h => D h v) as D'; clear D;
+      match type of D' with _ -> ?P -> _ => try (assert P by lia) end
+  end;
+  try solve [intuition (try congruence; try lia)]; destr_vars; try solve [intuition (try congruence; try lia)].
+
 (* ------------------------------------------------------------------------------------------------ *)
 (** * Runs *)
 
@@ -250,6 +267,195 @@ Proof.
   unfold I0, hold_lock_ok, attempt_no_ok, closed_iff_closing, I5, rx_quiet, cons_alive.
   intros (A & B & C) (D1 & D2 & D3 & D4). destruct x; cbn in *. destruct a.
   all: step_cases ltac:(try (intuition (try congruence))).
+Qed.
+
+
+(* ---- C14 (a)/(d): the link is shut ---- *)
+Definition past_close_rest (x : g) : Prop := match closing x with KSleepRx | KSleepCons | KDone => True | _ => False end.
+Definition awaiting_drain (x : g) : Prop := match hold x with HAwaitDrain _ => True | _ => False end.
+(* the current writer, once close() is past `self.writer.close()` *)
+Definition W (x : g) : Prop :=
+  past_close_rest x ->
+  match writer x with Some w => In w (closed_w x) \/ In w (drainfail_w x) \/ awaiting_drain x | None => True end.
+(* every connection obtained after close() was called *)
+Definition NW (x : g) : Prop :=
+  closing x <> KNone -> forall w, (n0 x <= w < next_w x)%nat ->
+  In w (closed_w x) \/ In w (drainfail_w x) \/ (writer x = Some w /\ awaiting_drain x).
+
+Lemma W_step fe fl x a y : closed_iff_closing x -> W x -> trans k fe true fl x a = Some y -> W y.
+Proof.
+  unfold closed_iff_closing, W, past_close_rest, awaiting_drain.
+  intros C D. destruct x; cbn in *. destruct a.
+  all: step_cases ltac:(try solve [intuition congruence]; destr_vars; try (intuition (try congruence))).
+Qed.
+
+Lemma NW_step fe fl x a y : closed_iff_closing x -> NW x -> trans k fe true fl x a = Some y -> NW y.
+Proof.
+  unfold closed_iff_closing, NW, awaiting_drain.
+  intros C D. destruct x; cbn in *. destruct a.
+  all: step_cases ltac:(nw_fin D next_w).
+Qed.
+
+
+(* ---- C13 (d): never monopolises the loop ---- *)
+(* the receive loop and the queue consumer are never both in the middle of an event-loop step *)
+Definition excl (x : g) : Prop := rx x = RRun -> cons x = CRun -> False.
+
+Lemma excl_step fe fc fl x a y : excl x -> trans k fe fc fl x a = Some y -> excl y.
+Proof.
+  unfold excl. intros D. destruct x; cbn in *. destruct a.
+  all: step_cases ltac:(try solve [intuition congruence];
+        match goal with H : allowed _ _ = true |- _ => unfold allowed in H; cbn in H end;
+        destr_vars; try solve [intuition congruence]).
+Qed.
+
+Lemma ret_ok_decr fresh x b : ret_ok k true fresh x b = true -> (Z.to_nat b < Z.to_nat (buf x))%nat.
+Proof.
+  unfold ret_ok. intros H. apply andb_prop in H. destruct H as [_ H]. destruct k.
+  - apply andb_prop in H. destruct H as [H1 H2]. apply Z.leb_le in H1. apply Z.eqb_eq in H2. lia.
+  - cbn in H. rewrite orb_false_r in H. apply andb_prop in H. destruct H as [H1 H2].
+    apply Z.leb_le in H1. apply Z.ltb_lt in H2. lia.
+  - cbn in H. rewrite orb_false_r in H. apply andb_prop in H. destruct H as [H1 H2].
+    apply Z.ltb_lt in H1. apply Z.eqb_eq in H2. lia.
+Qed.
+
+(* steps a task can still take without yielding *)
+Definition mu (x : g) : nat :=
+  match rx x with
+  | RRun => S (Z.to_nat (buf x))
+  | _ => match cons x with CRun => S (Z.to_nat (q x)) | _ => O end
+  end.
+
+Lemma busy_step fc fl x a y : excl x -> busy x = true -> trans k true fc fl x a = Some y -> (mu y < mu x)%nat.
+Proof.
+  unfold excl, busy, mu. intros D E. destruct x; cbn in *. destruct a.
+  all: step_cases ltac:(
+        match goal with H : allowed _ _ = true |- _ => unfold allowed in H; cbn in H end;
+        repeat match goal with H : ret_ok _ _ _ _ _ = true |- _ => apply ret_ok_decr in H; cbn in H end;
+        repeat match goal with H : (_ <? _) = true |- _ => apply Z.ltb_lt in H end;
+        destr_vars; try discriminate; try lia; try (exfalso; intuition congruence)).
+Qed.
+
+
+(* ---- C14 (c): an exception raised by the status callback changes nothing ---- *)
+Definition cb_norm (c : cbout) : cbout := match c with CbRaise => CbRet | _ => c end.
+Definition act_norm (a : act) : act :=
+  match a with
+  | AImplOk c => AImplOk (cb_norm c)
+  | ARxIter (RxRaise b c) => ARxIter (RxRaise b (cb_norm c))
+  | ARxSleepDone c => ARxSleepDone (cb_norm c)
+  | ASendEntry (SFault c) => ASendEntry (SFault (cb_norm c))
+  | ASendDrainDone (SFault c) => ASendDrainDone (SFault (cb_norm c))
+  | AClose c => AClose (cb_norm c)
+  | _ => a
+  end.
+
+Lemma cb_raise_harmless fe fc fl x a : trans k fe fc fl x (act_norm a) = trans k fe fc fl x a.
+Proof.
+  destruct a as [| | | c | | | | | | | o | c | | | | | | | | o | o | | c | | | | |]; try reflexivity.
+  - destruct c; reflexivity.
+  - destruct o as [| | |b c]; try reflexivity. destruct c; try reflexivity.
+  - destruct c; reflexivity.
+  - destruct o as [| |c]; try reflexivity. destruct c; reflexivity.
+  - destruct o as [| |c]; try reflexivity. destruct c; reflexivity.
+  - destruct c; reflexivity.
+Qed.
+
+(* the receive callback: whether it returns or raises, the successor state is the same *)
+Lemma rcb_raise_harmless fe fc fl x : trans k fe fc fl x (AConsGot RcRaise) = trans k fe fc fl x (AConsGot RcRet).
+Proof. reflexivity. Qed.
+
+
+(* ---- C13 (b), (e): what a fault and what a successful connect do ---- *)
+Definition fault_cb (a : act) : option cbout :=
+  match a with
+  | ARxIter (RxRaise _ c) | ARxSleepDone c | ASendEntry (SFault c) | ASendDrainDone (SFault c) => Some c
+  | _ => None
+  end.
+
+Lemma fault_step fe fc fl x a y c : fault_cb a = Some c -> st x <> Closed -> trans k fe fc fl x a = Some y ->
+  st y = Disc /\ reconnect_pending y /\
+  (st x = Conn -> c <> CbNone /\ trace y = Disc :: trace x) /\
+  (st x = Disc -> c = CbNone /\ trace y = trace x).
+Proof.
+  unfold reconnect_pending. intros F C. destruct x; cbn in *.
+  destruct a as [| | | | | | | | | | o | c' | | | | | | | | o | o | | | | | | |]; try discriminate F.
+  1: destruct o; try discriminate F. 3: destruct o; try discriminate F. 4: destruct o; try discriminate F.
+  all: injection F as ->.
+  all: step_cases ltac:(try congruence; repeat split; try congruence; try discriminate; try lia; auto 6 with arith).
+Qed.
+
+Lemma connect_fail_step fe fc fl x a y d : a = AImplFail d \/ a = AImplFailOpened d ->
+  attempt_no_ok x -> hold_lock_ok x -> trans k fe fc fl x a = Some y ->
+  exists n, (hold x = HAwaitImpl n \/ hold x = HAwaitDrain n) /\ hold y = HBackoff n /\
+            d = wait2 (Z.of_nat n) /\ 1 <= d <= 20 /\ lock y = true /\ st y = st x /\ attempts y = attempts x.
+Proof.
+  unfold attempt_no_ok, hold_lock_ok. intros [-> | ->] A B; destruct x; cbn in *.
+  all: step_cases ltac:(
+    repeat match goal with H : (_ =? _) = true |- _ => apply Z.eqb_eq in H end; subst;
+    eexists; repeat split; eauto; try (apply wait2_bounds; lia)).
+Qed.
+
+Lemma backoff_done_step fe fc fl x y n : hold x = HBackoff n -> st x <> Closed ->
+  trans k fe fc fl x ABackoffDone = Some y ->
+  hold y = HAwaitImpl (S n) /\ attempts y = S (attempts x) /\ lock y = true /\ st y = st x.
+Proof.
+  intros A C. destruct x; cbn in *. subst.
+  time step_cases ltac:(try congruence; auto).
+Qed.
+
+Lemma connect_ok_step fe fl x y cb : st x <> Closed -> trans k fe true fl x (AImplOk cb) = Some y ->
+  st y = Conn /\ (st x <> Conn -> cb <> CbNone /\ trace y = Conn :: trace x) /\
+  match cb with
+  | CbSusp => hold y = HStatusCb
+  | _ => (rx_alive x = true /\ hold y = HCancelWait /\ rx_creq y = true) \/
+         (rx_alive x = false /\ rx y = RCreated /\ rx_creq y = false /\ lock y = false)
+  end.
+Proof.
+  unfold rx_alive. intros C. destruct x; cbn in *.
+  time step_cases ltac:(try congruence; repeat split; try congruence; try discriminate; auto).
+Qed.
+
+(* when the connect() coroutine that owns the lock finishes: CLOSED, or a fresh receive task has been created
+   and (if a fault was reported meanwhile) another connect() has been scheduled *)
+Lemma lock_release_step fe fc x a y : hold_lock_ok x -> lock x = true -> trans k fe fc true x a = Some y -> lock y = false ->
+  st y = Closed \/
+  (rx y = RCreated /\ rx_creq y = false /\ (st y = Conn \/ (st y = Disc /\ (0 < pending_connects y)%nat))).
+Proof.
+  unfold hold_lock_ok. intros A B. destruct x; cbn in *. subst. destruct a.
+  all: step_cases ltac:(try congruence; try (intros _); auto 7 with arith).
+Qed.
+
+Lemma rx_start_step fe fc fl x y : st x <> Closed -> trans k fe fc fl x ARxStart = Some y ->
+  rx x = RCreated /\ rx y = RRun.
+Proof.
+  intros C. destruct x; cbn in *.
+  time step_cases ltac:(try congruence; auto).
+Qed.
+
+
+(* ---- C14 (d): after close() has returned the background tasks finish ---- *)
+Definition hold_w (h : holder) : nat :=
+  match h with HNone => 0 | HBackoff _ => 1 | HAwaitDrain _ => 2 | HAwaitImpl _ => 3 | HCancelWait => 3 | HStatusCb => 4 end.
+Definition fin_measure (x : g) : nat :=
+  2 * pending_connects x + hold_w (hold x) + (match rx x with RCreated => 1 | _ => 0 end) + old_creq x + 3 * send_cb x.
+(* steps of the client's own tasks (connect retry, receive loops, queue consumer, close, fault handlers);
+   the others are the application (connect(), send()) and the peer *)
+Definition background (a : act) : bool :=
+  match a with
+  | AUserConnect | ASendEntry _ | ASendDrainDone _ | AEnvFeed _ | AEnvEof | AEnvReset => false
+  | _ => true
+  end.
+
+Lemma fin_step fe fl x a y : closed_iff_closing x -> I5 x -> closing x = KDone -> background a = true ->
+  trans k fe true fl x a = Some y -> closing y = KDone /\ (fin_measure y < fin_measure x)%nat.
+Proof.
+  unfold closed_iff_closing, I5, rx_quiet, cons_alive, fin_measure, hold_w.
+  intros C (D1 & D2 & D3 & D4) E B. destruct x; cbn in *. subst.
+  assert (st = Closed) as -> by (apply C; discriminate). clear C D1 D3.
+  specialize (D2 eq_refl). specialize (D4 (or_intror eq_refl)).
+  destruct a; try discriminate B.
+  all: step_cases ltac:(try first [ discriminate | split; [reflexivity | try lia; destr_vars; try discriminate; try lia]]).
 Qed.
 
 End Inv.
